@@ -501,8 +501,100 @@ def uniform_variate(ctx):
                      "not applicable")
 
 
+def simultaneous_update(ctx):
+    """SIMUL-1: the two-index Green's-function update is written for the Green's function the method receives.  A
+    rank-one correction that combines entries read before the first correction was applied (sg_i, g_ii, g_ij, ... of
+    the argument) with a column read after it (out of the partially updated array) is neither the simultaneous update
+    nor two sequential Sherman-Morrison steps: whenever both index pairs address the same block (same spin, or the one
+    GHF matrix) the column has already changed.  Decided on the value graph of update_greens_function of every class
+    that defines one; a method written with only pre-update reads, or only post-update reads in its later corrections,
+    is not reported."""
+    p = ctx.p
+    n_cls = 0
+    for q, ci in sorted(p.classes.items()):
+        fi = ci.methods.get("update_greens_function")
+        if fi is None or fi.is_abstract:
+            continue
+        ev = Evaluator(p)
+        fr = ev.eval_function(fi)
+        res = strip_wrappers(ev.result(fr))
+        prm = [x.name for x in fi.pos_params() if x.name != "self"]
+        if not prm:
+            continue
+        G0 = sym(prm[0])          # the Green's function is the first argument (by position, any name)
+
+        def split_update(t):
+            """(base array, written index or None for the whole array, value) when t is a functional update"""
+            t = strip_wrappers(t)
+            if t.op == "setitem":
+                b_, i_, v_ = t.args
+                vv = strip_wrappers(v_)
+                if vv.op == "binop" and vv.args[0] == "+":          # X.at[idx].set(X[idx] + d) is X.at[idx].add(d)
+                    for own, d_ in ((vv.args[1], vv.args[2]), (vv.args[2], vv.args[1])):
+                        if strip_wrappers(own) is getitem(b_, i_):
+                            return b_, i_, d_
+                return b_, i_, v_
+            if t.op == "call" and t.args[0].op == "attr" and t.args[0].args[1] in ("add", "set", "multiply", "mul", "subtract") \
+                    and len(t.args) >= 2:
+                tg = t.args[0].args[0]
+                if tg.op == "getitem" and tg.args[0].op == "attr" and tg.args[0].args[1] == "at":
+                    return tg.args[0].args[0], tg.args[1], t.args[1]
+            if t.op == "binop" and t.args[0] in ("+", "-"):
+                return t.args[1], None, t.args[2]
+            return None
+
+        chain = []                # [(update term, base, written index, value)] from the result back to the argument
+        cur = res
+        while cur is not G0:
+            su = split_update(cur)
+            if su is None:
+                break
+            chain.append((cur, su[0], su[1], su[2]))
+            cur = strip_wrappers(su[0])
+        if cur is not G0 or not chain:
+            ctx.rep.note(f"{q}.update_greens_function: the result is not a chain of functional updates of its first "
+                         f"argument ({show(res, maxdepth=2)[:60]}); the simultaneous-update rule is not applied")
+            continue
+        n_cls += 1
+        chain.reverse()           # first correction first
+        updated = {id(strip_wrappers(u)) for u, _, _, _ in chain}
+        bad = []
+        for k, (u, base, widx, val) in enumerate(chain):
+            if k == 0:
+                continue
+            before = [x for x in subterms(val) if x.op == "getitem" and strip_wrappers(x.args[0]) is G0]
+            after = []
+            for x in subterms(val):
+                if x.op != "getitem" or id(strip_wrappers(x.args[0])) not in updated:
+                    continue
+                # the earlier corrections wrote  <array>[w0, ...]; this reads <array>[r0, ...]: disjoint only when the
+                # leading indices are different literals
+                disjoint = True
+                for (u2, _, w2, _) in chain[:k]:
+                    if w2 is None:
+                        disjoint = False
+                        continue
+                    w0 = w2.args[0] if w2.op == "tuple" and w2.args else w2
+                    r0 = x.args[1].args[0] if x.args[1].op == "tuple" and x.args[1].args else x.args[1]
+                    if not (w0.op == "const" and r0.op == "const" and w0.args[0] != r0.args[0]):
+                        disjoint = False
+                if not disjoint:
+                    after.append(x)
+            if before and after:
+                bad.append((k, after[0], before[0]))
+        ctx.ob("SIMUL-1", f"{q}.update_greens_function: every correction is built from one state of the Green's function",
+               not bad, "; ".join(
+                   f"correction #{k + 1} reads {show(a, maxdepth=2)[:50]} out of the partially updated array and "
+                   f"{show(b, maxdepth=2)[:40]} out of the argument: for index pairs in the same block the column has "
+                   f"already been changed by correction #{k}" for k, a, b in bad) or
+               f"{len(chain)} correction(s), all reads from the argument", fi)
+    if n_cls == 0:
+        raise AnalysisError("no update_greens_function could be analysed (the incremental Green's-function update vanished)")
+
+
 def run(ctx):
     uniform_variate(ctx)
+    simultaneous_update(ctx)
     p = ctx.p
     pairs = [("propagator_cpmc", "propagator_cpmc_slow"), ("propagator_cpmc_nn", "propagator_cpmc_nn_slow")]
     n_blocks = 0
